@@ -45,11 +45,18 @@ func (g *GenResult) CompareEntity(d *Dir, alias string, wantKey string) ([]refcf
 		return nil, a, fmt.Errorf("no decodable certificate for %s: exists=%v err=%v", alias, a.Exists, a.CertErr)
 	}
 	var issuer *refx509.Cert
+	var issuerReal *refx509.PublicKey
 	if cfg.Issuer != "" {
 		ic := d.Cert(cfg.Issuer)
 		if ic != nil {
 			ia := ReadArtifact(g.W, ic.Path)
 			issuer = ia.Cert
+			if ic.Manip != nil && (ic.Manip.TbsPubKey != nil || ic.Manip.TbsPubKeyAlg != nil) && ia.Pem != nil && ia.Pem.KeyDER != nil {
+				// the issuer's certificate does not show its real key: signatures are made with the key on disk
+				if k, err := refx509.ParsePKCS8(ia.Pem.KeyDER); err == nil {
+					issuerReal = k.Public()
+				}
+			}
 		}
 		if issuer == nil {
 			return nil, a, fmt.Errorf("issuer %s of %s has no decodable certificate", cfg.Issuer, alias)
@@ -59,7 +66,7 @@ func (g *GenResult) CompareEntity(d *Dir, alias string, wantKey string) ([]refcf
 	if cfg.Profile != "" {
 		prof = d.Profile(cfg.Profile)
 	}
-	in := refcfg.CmpIn{Cfg: cfg, Prof: prof, Cert: a.Cert, Issuer: issuer, Loc: time.Local, RunStart: g.RunStart, RunEnd: g.RunEnd, WantKeyAlg: wantKey}
+	in := refcfg.CmpIn{Cfg: cfg, Prof: prof, Cert: a.Cert, Issuer: issuer, Loc: time.Local, RunStart: g.RunStart, RunEnd: g.RunEnd, WantKeyAlg: wantKey, IssuerRealKey: issuerReal}
 	return refcfg.Compare(in), a, nil
 }
 
